@@ -7,6 +7,9 @@ from common import fr, frl, close, close_seq, fl, is_finite
 from replay import checker
 
 SIGMAS = (1.0, 2.0 ** -10, 2.0 ** 10)     # unit-scale sweep (DESIGN.md 4.3): dyadic, exact in floats
+# frames (scale, shift): the unit-scale sweep plus a far-away origin (absolute tolerances such as
+# numpy.isclose's 1e-5*|t| become visible when the recording starts at 2^20)
+FRAMES = ((1.0, 0.0), (2.0 ** -10, 0.0), (2.0 ** 10, 0.0), (1.0, 2.0 ** 20))
 
 
 def _mm(sub, text, observed=None, expected=None):
@@ -17,10 +20,10 @@ def _hdr(rec, keys):
     return " ".join("%s=%s" % (k, rec.get(k)) for k in keys)
 
 
-def _cmp_arrays(out, sub, rec, hdr, got, exp, scales):
+def _cmp_arrays(out, sub, rec, hdr, got, exp, scales, shift=0.0):
     """got: tuple of arrays, exp: tuple of lists of Fractions, scales: per array scale"""
     for name, g, e, sc in zip(("x", "y", "y2", "mp"), got, exp, scales):
-        e2 = [float(v) * sc for v in e]
+        e2 = [float(v) * sc + (shift if name == "x" else 0.0) for v in e]
         g = np.asarray(g, dtype=float)
         if len(g) != len(e2) or not all(close(gi, ei, sc if name == "x" else 1.0) for gi, ei in zip(g, e2)):
             out.append(_mm(sub, "%s %s: array %d (%s) = %s expected %s" % (sub, hdr, 0, name, fl(g), e2),
@@ -38,22 +41,22 @@ def chk_isi(rec, be):
     hdr = "a=%s b=%s [%s,%s] MRTS=%s" % (a, b, ts, te, m)
     out = []
     n = 0
-    for sg in rec.get("_sigmas", SIGMAS):
+    for sg, sh in rec.get("_frames", FRAMES):
         f = PB.isi_distance_python if be == "py" else shim("cython_profiles", "isi_profile_cython")
-        st, r = call(f, nonempty(a, ts, te, sg), nonempty(b, ts, te, sg), ts * sg, te * sg, float(m) * sg)
+        st, r = call(f, nonempty(a, ts, te, sg, sh), nonempty(b, ts, te, sg, sh), ts * sg + sh, te * sg + sh, float(m) * sg)
         n += 1
-        sub = "isi-kernel[%s,s=%g]" % (be, sg)
+        sub = "isi-kernel[%s,s=%g,shift=%g]" % (be, sg, sh)
         if st != "ok":
             out.append(_mm(sub, "%s %s raised %s" % (sub, hdr, r)))
         else:
-            _cmp_arrays(out, sub, rec, hdr, r, (X, Y), (sg, 1.0))
-        st, r = call(pyspike.isi_profile, train(a, ts, te, sg), train(b, ts, te, sg), MRTS=float(m) * sg)
+            _cmp_arrays(out, sub, rec, hdr, r, (X, Y), (sg, 1.0), sh)
+        st, r = call(pyspike.isi_profile, train(a, ts, te, sg, sh), train(b, ts, te, sg, sh), MRTS=float(m) * sg)
         n += 1
-        sub = "isi_profile[%s,s=%g]" % (be, sg)
+        sub = "isi_profile[%s,s=%g,shift=%g]" % (be, sg, sh)
         if st != "ok":
             out.append(_mm(sub, "%s %s raised %s" % (sub, hdr, r)))
         else:
-            _cmp_arrays(out, sub, rec, hdr, (r.x, r.y), (X, Y), (sg, 1.0))
+            _cmp_arrays(out, sub, rec, hdr, (r.x, r.y), (X, Y), (sg, 1.0), sh)
     return n, out
 
 
@@ -67,22 +70,22 @@ def chk_spike(rec, be):
     hdr = "a=%s b=%s [%s,%s] MRTS=%s RI=%s" % (a, b, ts, te, m, ri)
     out = []
     n = 0
-    for sg in rec.get("_sigmas", SIGMAS):
+    for sg, sh in rec.get("_frames", FRAMES):
         f = PB.spike_distance_python if be == "py" else shim("cython_profiles", "spike_profile_cython")
-        st, r = call(f, nonempty(a, ts, te, sg), nonempty(b, ts, te, sg), ts * sg, te * sg, float(m) * sg, ri)
+        st, r = call(f, nonempty(a, ts, te, sg, sh), nonempty(b, ts, te, sg, sh), ts * sg + sh, te * sg + sh, float(m) * sg, ri)
         n += 1
-        sub = "spike-kernel[%s,s=%g]" % (be, sg)
+        sub = "spike-kernel[%s,s=%g,shift=%g]" % (be, sg, sh)
         if st != "ok":
             out.append(_mm(sub, "%s %s raised %s" % (sub, hdr, r)))
         else:
-            _cmp_arrays(out, sub, rec, hdr, r, (X, Y1, Y2), (sg, 1.0, 1.0))
-        st, r = call(pyspike.spike_profile, train(a, ts, te, sg), train(b, ts, te, sg), MRTS=float(m) * sg, RI=ri)
+            _cmp_arrays(out, sub, rec, hdr, r, (X, Y1, Y2), (sg, 1.0, 1.0), sh)
+        st, r = call(pyspike.spike_profile, train(a, ts, te, sg, sh), train(b, ts, te, sg, sh), MRTS=float(m) * sg, RI=ri)
         n += 1
-        sub = "spike_profile[%s,s=%g]" % (be, sg)
+        sub = "spike_profile[%s,s=%g,shift=%g]" % (be, sg, sh)
         if st != "ok":
             out.append(_mm(sub, "%s %s raised %s" % (sub, hdr, r)))
         else:
-            _cmp_arrays(out, sub, rec, hdr, (r.x, r.y1, r.y2), (X, Y1, Y2), (sg, 1.0, 1.0))
+            _cmp_arrays(out, sub, rec, hdr, (r.x, r.y1, r.y2), (X, Y1, Y2), (sg, 1.0, 1.0), sh)
     return n, out
 
 
@@ -93,12 +96,12 @@ def _mt(rec, sg, variant=0):
     return t
 
 
-def _cmp_disc(out, sub, hdr, got, exp, sg):
+def _cmp_disc(out, sub, hdr, got, exp, sg, shift=0.0):
     names = ("x", "y", "mp")
     for name, g, e in zip(names, got, exp):
         g = np.asarray(g, dtype=float)
         sc = sg if name == "x" else 1.0
-        e2 = [float(v) * sc for v in e]
+        e2 = [float(v) * sc + (shift if name == "x" else 0.0) for v in e]
         if len(g) != len(e2) or not all(close(gi, ei, sc) for gi, ei in zip(g, e2)):
             out.append(_mm(sub, "%s %s: %s = %s expected %s" % (sub, hdr, name, fl(g), e2), fl(g), e2))
             return False
@@ -113,25 +116,25 @@ def chk_sync(rec, be):
     out = []
     n = 0
     exp = (rec["x"], rec["c"], rec["mp"])
-    for k, sg in enumerate(rec.get("_sigmas", SIGMAS)):
+    for k, (sg, sh) in enumerate(rec.get("_frames", FRAMES)):
         mt = _mt(rec, sg)
         f = PB.coincidence_python if be == "py" else shim("cython_profiles", "coincidence_profile_cython")
-        st, r = call(f, arr(a, sg), arr(b, sg), ts * sg, te * sg, mt, float(m) * sg)
+        st, r = call(f, arr(a, sg, sh), arr(b, sg, sh), ts * sg + sh, te * sg + sh, mt, float(m) * sg)
         n += 1
-        sub = "sync-kernel[%s,s=%g]" % (be, sg)
+        sub = "sync-kernel[%s,s=%g,shift=%g]" % (be, sg, sh)
         if st != "ok":
             out.append(_mm(sub, "%s %s raised %s" % (sub, hdr, r)))
         else:
-            _cmp_disc(out, sub, hdr, r, exp, sg)
+            _cmp_disc(out, sub, hdr, r, exp, sg, sh)
         mtu = None if (mt == 0 and k % 2 == 0) else mt
-        st, r = call(pyspike.spike_sync_profile, train(a, ts, te, sg), train(b, ts, te, sg),
+        st, r = call(pyspike.spike_sync_profile, train(a, ts, te, sg, sh), train(b, ts, te, sg, sh),
                      max_tau=mtu, MRTS=float(m) * sg)
         n += 1
-        sub = "spike_sync_profile[%s,s=%g,max_tau=%r]" % (be, sg, mtu)
+        sub = "spike_sync_profile[%s,s=%g,shift=%g,max_tau=%r]" % (be, sg, sh, mtu)
         if st != "ok":
             out.append(_mm(sub, "%s %s raised %s" % (sub, hdr, r)))
         else:
-            _cmp_disc(out, sub, hdr, (r.x, r.y, r.mp), exp, sg)
+            _cmp_disc(out, sub, hdr, (r.x, r.y, r.mp), exp, sg, sh)
     return n, out
 
 
@@ -142,12 +145,12 @@ def chk_single(rec, be):
     hdr = "a=%s b=%s [%s,%s] MRTS=%s max_tau=%s" % (a, b, ts, te, m, fr(rec["mtau"]))
     out = []
     n = 0
-    for sg in rec.get("_sigmas", SIGMAS):
+    for sg, sh in rec.get("_frames", FRAMES):
         f = PB.coincidence_single_python if be == "py" else \
             shim("cython_profiles", "coincidence_single_profile_cython")
-        st, r = call(f, arr(a, sg), arr(b, sg), ts * sg, te * sg, _mt(rec, sg), float(m) * sg)
+        st, r = call(f, arr(a, sg, sh), arr(b, sg, sh), ts * sg + sh, te * sg + sh, _mt(rec, sg), float(m) * sg)
         n += 1
-        sub = "single-kernel[%s,s=%g]" % (be, sg)
+        sub = "single-kernel[%s,s=%g,shift=%g]" % (be, sg, sh)
         if st != "ok":
             out.append(_mm(sub, "%s %s raised %s" % (sub, hdr, r)))
         else:
